@@ -1,5 +1,6 @@
 import UscxmlVerif.Model.NameMatch
 import UscxmlVerif.Spec.Descriptor
+import UscxmlVerif.Model.Trie
 namespace Driver
 open UscxmlVerif
 
@@ -30,6 +31,21 @@ def namematch (line : String) : String :=
       let wfd := Spec.Descriptor.wfDescList ds
       s!"M={bits (Model.NameMatch.nameMatch ds) ns} S={bits (Spec.Descriptor.listMatches ds) ns} WF={bits (fun n => wfd && Spec.Descriptor.wfName n) ns}"
     | _, _, _ => "bad-op"
+  | _ => "bad-op"
+
+/-- `<hex word>,…\t<hex prefix>,…` ("-" = the empty string): per prefix the words `getWordsWithPrefix` returns (sorted), then the
+number of marked nodes; the same spelling as `uvharness trie` -/
+def trie (line : String) : String :=
+  let dec (h : String) : Option Bytes := if h == "-" then some [] else Hex.decode h
+  let enc (b : Bytes) : String := if b.isEmpty then "-" else Hex.encode b
+  match line.splitOn "\t" with
+  | [ws, ps] =>
+    match (ws.splitOn ",").mapM dec, (ps.splitOn ",").mapM dec with
+    | some words, some prefixes =>
+      let t := Model.Trie.build words
+      let per := prefixes.map (fun p => ",".intercalate (((Model.Trie.query t p).map enc).mergeSort (· ≤ ·)))
+      s!"{"|".intercalate per} n={(Model.Trie.words t).length}"
+    | _, _ => "bad-op"
   | _ => "bad-op"
 
 end Driver
